@@ -35,7 +35,7 @@ typedef DiscretisedDensity<3, float> image_type;
 namespace {
 
 const NumericType::Type TYPES[] = { NumericType::FLOAT, NumericType::SHORT, NumericType::USHORT, NumericType::INT, NumericType::SCHAR,
-                                    NumericType::UCHAR, NumericType::DOUBLE };
+                                    NumericType::UCHAR, NumericType::DOUBLE, NumericType::UINT, NumericType::LONG, NumericType::ULONG };
 double
 type_max(NumericType::Type t)
 {
@@ -51,6 +51,12 @@ type_max(NumericType::Type t)
       return 127.;
     case NumericType::UCHAR:
       return 255.;
+    case NumericType::UINT:
+      return 4294967295.;
+    case NumericType::LONG:
+      return 9223372036854775807.;
+    case NumericType::ULONG:
+      return 18446744073709551615.;
     default:
       return 0.;
     }
@@ -75,6 +81,12 @@ tname(const NumericType& t)
       return "schar";
     case NumericType::UCHAR:
       return "uchar";
+    case NumericType::UINT:
+      return "uint";
+    case NumericType::LONG:
+      return "long";
+    case NumericType::ULONG:
+      return "ulong";
     default:
       return "?";
     }
@@ -88,7 +100,10 @@ struct Case
   ByteOrder bo;
   float scale = 0.f;
   shared_ptr<InterfileOutputFileFormat> fmt;
-  bool is_unsigned() const { return type.id == NumericType::USHORT || type.id == NumericType::UCHAR; }
+  bool is_unsigned() const
+  {
+    return type.id == NumericType::USHORT || type.id == NumericType::UCHAR || type.id == NumericType::UINT || type.id == NumericType::ULONG;
+  }
 };
 
 Case
@@ -115,7 +130,7 @@ make_case(const Plan& p)
       c.exam->set_calibration_factor(1.5f * (float)p.c("calib", 1));
   }
   c.image.reset(new VoxelsOnCartesianGrid<float>(c.exam, IndexRange3D(mz, mz + nz - 1, my, my + ny - 1, mx, mx + nx - 1), origin, vs));
-  c.type = NumericType(TYPES[p.c("dtype", 0) % 7]);
+  c.type = NumericType(TYPES[p.c("dtype", 0) % 10]);
   c.bo = ByteOrder(p.c("swap", 0) ? ByteOrder::swapped : ByteOrder::native);
   // values
   const int dist = (int)p.c("dist", 0) % 6;
@@ -784,7 +799,7 @@ gen(uint64_t seed, const std::string& tier, long idx)
   p.cfg["oz"] = r.chance(0.5) ? 0 : r.range(-10, 10);
   p.cfg["oy"] = r.chance(0.6) ? 0 : r.range(-40, 40);
   p.cfg["ox"] = r.chance(0.6) ? 0 : r.range(-40, 40);
-  p.cfg["dtype"] = r.range(0, 6);
+  p.cfg["dtype"] = r.range(0, 9);
   p.cfg["swap"] = r.chance(0.5);
   p.cfg["scale"] = r.range(0, 4);
   p.cfg["dist"] = r.range(0, 5);
